@@ -1,7 +1,7 @@
 (* C12 — Round-robin is exact and weighted round-robin is exactly proportional.
    This file holds statements only; every proof is `exact <lemma>`. *)
 From Coq Require Import List ZArith Arith Permutation.
-From RPCX Require Import Base.Cyclic Select.RoundRobin Select.RoundRobinProofs Select.SWRR Select.SWRRProofs.
+From RPCX Require Import Base.Cyclic Select.RoundRobin Select.RoundRobinProofs Select.SWRR Select.SWRRProofs Select.SWRREqual.
 Import ListNotations.
 Close Scope Z_scope.
 Open Scope nat_scope.
@@ -40,6 +40,14 @@ Proof. exact wrr_window_counts. Qed.
 
 (* An update replaces the whole state by a freshly built one: a changed weight is honoured from
    the next selection on. *)
+(* with equal weights the weighted selector behaves as plain round-robin: for n servers of the same positive
+   weight w, from any cursor, selection k picks server (cursor + k) mod n - so every n consecutive selections pick
+   every server exactly once *)
+Theorem C12_equal_weights_is_round_robin : forall n w cur k, 1 <= n -> (0 < w)%Z ->
+  let s := {| wrr_n := n; wrr_ring := swrr_ring (repeat w n); wrr_cur := cur |} in
+  fst (wrr_selects k s) = map (fun t => Some ((cur + t) mod n)) (seq 0 k).
+Proof. exact equal_weights_round_robin. Qed.
+
 Theorem C12_update_is_fresh_build : forall s p, wrr_step s (WUpdate p) = (wrr_new p, []).
 Proof. reflexivity. Qed.
 
@@ -55,3 +63,4 @@ Print Assumptions C12_round_robin_after_any_history.
 Print Assumptions C12_weighted_ring_counts.
 Print Assumptions C12_weighted_window_proportional.
 Print Assumptions C12_update_is_fresh_build.
+Print Assumptions C12_equal_weights_is_round_robin.
